@@ -49,8 +49,24 @@ type ConcCase struct {
 	Ledger     bool      `json:"ledger"`     // ledger workload (see concGenLedger): the final state is judged strictly on every ledger
 	Trigger    bool      `json:"trigger"`    // the workload contains an operation of the kinds behind the recorded ledger-drift findings (concTrigger)
 	// ReleaseAfterAlloc: percentage of announced allocations the mock shim releases again (STOPPED_BY_RM) through the RM goroutine
-	ReleaseAfterAlloc int         `json:"release_after_alloc,omitempty"`
-	Result            *ConcResult `json:"result,omitempty"`
+	ReleaseAfterAlloc int `json:"release_after_alloc,omitempty"`
+	// Ugm: first-use workload of the user / group manager (see concGenUgm): the tracked usage is judged strictly
+	Ugm bool `json:"ugm,omitempty"`
+	// StableUsers: no user tracker can become empty during the run: the workload releases nothing (first use) or every
+	// user holds an allocation that is never released (ledger). Only then is the tracked usage judged strictly: on the
+	// unchanged tree the release of a user's last allocation racing with an allocation for the same user loses the
+	// tracker (known finding C14-ugm-tracker-removed-in-use)
+	StableUsers bool `json:"stable_users,omitempty"`
+	// Burst: percentage of the RM goroutine's operations that follow their predecessor without a pause
+	Burst int `json:"burst,omitempty"`
+	// TightKeys: allocation keys whose operation follows its predecessor in the RM goroutine without a pause
+	TightKeys []string `json:"tight_keys,omitempty"`
+	// UserGroups: the group every application of the user must be tracked under (users not listed: no statement)
+	UserGroups map[string]string `json:"user_groups,omitempty"`
+	// MaxStrict: queues that receive no unchecked increment in this workload (their usage only grows through the
+	// scheduler's limit check): after quiescence their usage must be within their configured maximum
+	MaxStrict []string    `json:"max_strict,omitempty"`
+	Result    *ConcResult `json:"result,omitempty"`
 }
 
 type ConcLock struct {
@@ -77,25 +93,50 @@ type ConcReentry struct {
 	Site  []string `json:"site"`
 	Held  []string `json:"held_site"`
 }
+
+// ConcSplit: a split critical section seen in the run (pkg/locking/locking_verif_sections.go): inside ONE invocation
+// of Func the lock of an object of class Class was released and taken again in write mode at another place of Func.
+type ConcSplit struct {
+	Key        string   `json:"key"`     // Func|class|FirstFunc:mode>SecondFunc (no line numbers)
+	Pair       string   `json:"pair"`    // Func|class: the key of the baseline
+	Variant    string   `json:"variant"` // FirstFunc:mode>SecondFunc
+	ID         int      `json:"id"`      // id of the baseline entry; >= 1000: not in the baseline
+	Func       string   `json:"func"`
+	Class      string   `json:"class"`
+	FirstFunc  string   `json:"first_func"`
+	FirstMode  string   `json:"first_mode"`
+	SecondFunc string   `json:"second_func"`
+	Count      uint64   `json:"count"`
+	Widened    uint64   `json:"widened"`
+	Roles      []string `json:"roles"`
+	First      []string `json:"first_site,omitempty"`
+	Second     []string `json:"second_site,omitempty"`
+	Label      string   `json:"object,omitempty"` // one of the objects it was seen on
+}
+
 type ConcResult struct {
-	Locks      []ConcLock        `json:"locks"`
-	Edges      []ConcEdge        `json:"edges"`
-	ClassEdges map[string]uint64 `json:"class_edges"`
-	Cycle      []ConcEdge        `json:"cycle,omitempty"`              // an offending cycle of the nesting relation with labels and call sites
-	Excused    [][]string        `json:"single_role_cycles,omitempty"` // lock groups nested cyclically by ONE single-goroutine role only (harmless)
-	Rank       map[int]int       `json:"rank,omitempty"`               // rank certificate (levels of the condensation) when the relation is cyclic
-	Reentries  []ConcReentry     `json:"reentries,omitempty"`
-	Counters   map[string]uint64 `json:"counters"`
-	Blocked    []string          `json:"blocked,omitempty"` // goroutines that did not finish before the watchdog deadline
-	Dump       string            `json:"goroutine_dump,omitempty"`
-	Panics     []string          `json:"panics,omitempty"`
-	Fatal      string            `json:"fatal,omitempty"` // output of a run that died (fatal runtime error)
-	GoDeadlock []string          `json:"godeadlock_reports,omitempty"`
-	Races      []string          `json:"race_reports,omitempty"`
-	Unbound    []string          `json:"unbound_allocations_on_nodes,omitempty"` // node lists an allocation whose node id is unset (known finding window)
-	Observed   bool              `json:"observed"`
-	Settled    bool              `json:"settled"`
-	Final      *CoreObs          `json:"final_state,omitempty"`
+	Splits        []ConcSplit       `json:"split_sections,omitempty"`
+	NewSplits     []string          `json:"new_split_sections,omitempty"`     // keys not in corpus/conc_split_baseline.json
+	ForeignSplits map[string]uint64 `json:"foreign_split_sections,omitempty"` // function|class: an orchestrating function took another object's lock twice (information)
+	SplitMonitor  bool              `json:"split_monitor"`                    // the critical-section monitor was available
+	Locks         []ConcLock        `json:"locks"`
+	Edges         []ConcEdge        `json:"edges"`
+	ClassEdges    map[string]uint64 `json:"class_edges"`
+	Cycle         []ConcEdge        `json:"cycle,omitempty"`              // an offending cycle of the nesting relation with labels and call sites
+	Excused       [][]string        `json:"single_role_cycles,omitempty"` // lock groups nested cyclically by ONE single-goroutine role only (harmless)
+	Rank          map[int]int       `json:"rank,omitempty"`               // rank certificate (levels of the condensation) when the relation is cyclic
+	Reentries     []ConcReentry     `json:"reentries,omitempty"`
+	Counters      map[string]uint64 `json:"counters"`
+	Blocked       []string          `json:"blocked,omitempty"` // goroutines that did not finish before the watchdog deadline
+	Dump          string            `json:"goroutine_dump,omitempty"`
+	Panics        []string          `json:"panics,omitempty"`
+	Fatal         string            `json:"fatal,omitempty"` // output of a run that died (fatal runtime error)
+	GoDeadlock    []string          `json:"godeadlock_reports,omitempty"`
+	Races         []string          `json:"race_reports,omitempty"`
+	Unbound       []string          `json:"unbound_allocations_on_nodes,omitempty"` // node lists an allocation whose node id is unset (known finding window)
+	Observed      bool              `json:"observed"`
+	Settled       bool              `json:"settled"`
+	Final         *CoreObs          `json:"final_state,omitempty"`
 }
 
 const (
@@ -378,6 +419,7 @@ func runConcCase(c *ConcCase) *ConcResult {
 	}
 	th := concThreads(c.Ops)
 	r.reg.walk(d.core.CC)
+	concSplitsInit()
 	locking.VerifLockTraceStart(c.YieldSeed)
 
 	var gos []*concGo
@@ -456,6 +498,10 @@ func runConcCase(c *ConcCase) *ConcResult {
 		inputs.Add(1)
 		spawn("rm", func(rng *Rng) {
 			ops := th["rm"]
+			tight := map[string]bool{}
+			for _, k := range c.TightKeys {
+				tight[k] = true
+			}
 			inputDone := false
 			for i := 0; ; {
 				select {
@@ -467,7 +513,9 @@ func runConcCase(c *ConcCase) *ConcResult {
 				if i < len(ops) {
 					r.exec("rm", &ops[i])
 					i++
-					r.pace(rng)
+					if !(i < len(ops) && tight[ops[i].Key]) && (c.Burst == 0 || rng.Intn(100) >= c.Burst) {
+						r.pace(rng)
+					}
 					continue
 				}
 				if !inputDone {
@@ -582,6 +630,8 @@ func runConcCase(c *ConcCase) *ConcResult {
 		res.Settled = ok
 	}
 	edges := locking.VerifLockTraceStop()
+	splits := locking.VerifLockSplits()
+	res.SplitMonitor = locking.VerifLockSectionsAvailable()
 	if !ok {
 		for _, g := range gos {
 			if !g.done.Load() {
@@ -623,12 +673,17 @@ func runConcCase(c *ConcCase) *ConcResult {
 		}()
 	}
 	concResolve(res, edges, r.reg)
+	concSplits(res, splits, r.reg)
 	st := locking.VerifLockStats()
 	res.Counters["lock_acquires"] = st.Acquires
 	res.Counters["lock_nested_requests"] = st.Nested
 	res.Counters["lock_max_depth"] = st.MaxDepth
 	res.Counters["lock_unknown_release"] = st.UnknownRelease
 	res.Counters["lock_yields"] = st.Yields
+	for _, sp := range res.Splits {
+		res.Counters["split_sections_seen"] += sp.Count
+		res.Counters["split_windows_widened"] += sp.Widened
+	}
 	res.Counters["sched_cycles"] = uint64(r.cycles.Load())
 	res.Counters["allocations"] = uint64(r.allocs.Load())
 	res.Counters["ops"] = uint64(r.opsDone.Load())
